@@ -118,7 +118,7 @@ def project_fine(g, all_atom):
             "isH": bool(all_atom and a.get("element") == "H"),
             "chiral": "" if a.get("chiral") is None else str(a.get("chiral")),
             "name_el": _name_split(name)[0], "name_idx": _name_split(name)[1],
-            "ez": [list(x) if isinstance(x, (list, tuple)) else x for x in (a.get("ez_isomer") or [])] if False else [],
+            "ez": [[int(x[0]), int(x[1]), int(x[2]), int(x[3]), str(x[4])] for x in (a.get("ez_isomer") or [])],
         })
     edges = []
     for a, b, d in g.edges(data=True):
